@@ -20,6 +20,16 @@ type Printer struct {
 	// FuseGroupProject: allow `SELECT f(key), g(agg) … GROUP BY key` (project merged into group).
 	FuseGroupProject bool
 
+	// AllowSetopOffset: print `a UNION b ORDER BY … LIMIT n OFFSET m` (m > 0) as one statement. The
+	// engine applies such an OFFSET before the sort (known finding setop_offset_before_sort), so the
+	// generators leave this off and the set operation is wrapped in a derived table instead.
+	AllowSetopOffset bool
+	// AllowDistinctOrdinal: print `SELECT DISTINCT … ORDER BY <ordinal>` in one block (the engine
+	// mis-orders it; left off by the generators).
+	AllowDistinctOrdinal bool
+	// Feats records spelling features of the last statement that known-finding regions depend on.
+	Feats map[string]bool
+
 	n     int
 	ctes  []string
 	depth int // > 0 while printing a subquery inside an expression
@@ -52,6 +62,10 @@ type block struct {
 	stage    int
 }
 
+// noFuse: barriers apply to the outermost statement only; inside an expression subquery everything
+// is merged, so that references to enclosing rows never end up inside a derived table.
+func (p *Printer) noFuse(q *Query) bool { return (p.NoFuse || q.Barrier) && p.depth == 0 }
+
 func (p *Printer) fresh() string {
 	p.n++
 	return fmt.Sprintf("s%d", p.n)
@@ -60,6 +74,7 @@ func (p *Printer) fresh() string {
 // SQL renders a complete statement for q.
 func (p *Printer) SQL(q *Query) string {
 	p.n, p.ctes, p.depth = 0, nil, 0
+	p.Feats = map[string]bool{}
 	body := p.render(p.build(q, nil))
 	if len(p.ctes) > 0 {
 		return "WITH " + strings.Join(p.ctes, ", ") + " " + body
@@ -149,7 +164,7 @@ func (p *Printer) build(q *Query, outer [][]string) *block {
 		return b
 	case "filter":
 		b := p.build(q.L, outer)
-		if q.Barrier || p.NoFuse || b.raw != "" || !(b.stage == stFrom || b.stage == stGroup) {
+		if p.noFuse(q) || b.raw != "" || !(b.stage == stFrom || b.stage == stGroup) {
 			b = p.derive(b)
 		}
 		pred := p.expr(q.P, scope(b))
@@ -161,7 +176,7 @@ func (p *Printer) build(q *Query, outer [][]string) *block {
 		return b
 	case "project":
 		b := p.build(q.L, outer)
-		if q.Barrier || p.NoFuse || b.raw != "" || b.stage > stHaving || (b.stage >= stGroup && !p.FuseGroupProject) {
+		if p.noFuse(q) || b.raw != "" || b.stage > stHaving || (b.stage >= stGroup && !p.FuseGroupProject) {
 			b = p.derive(b)
 		}
 		b.sel = p.exprs(q.Es, scope(b))
@@ -170,10 +185,10 @@ func (p *Printer) build(q *Query, outer [][]string) *block {
 	case "join":
 		l := p.build(q.L, outer)
 		r := p.build(q.R, outer)
-		if q.Barrier || p.NoFuse || l.raw != "" || l.stage != stFrom {
+		if p.noFuse(q) || l.raw != "" || l.stage != stFrom {
 			l = p.derive(l)
 		}
-		if q.Barrier || p.NoFuse || r.raw != "" || r.stage != stFrom || r.isJoin {
+		if p.noFuse(q) || r.raw != "" || r.stage != stFrom || r.isJoin {
 			r = p.derive(r)
 		}
 		b := &block{stage: stFrom, isJoin: true}
@@ -187,7 +202,7 @@ func (p *Printer) build(q *Query, outer [][]string) *block {
 		return b
 	case "group":
 		b := p.build(q.L, outer)
-		if q.Barrier || p.NoFuse || b.raw != "" || b.stage > stWhere {
+		if p.noFuse(q) || b.raw != "" || b.stage > stWhere {
 			b = p.derive(b)
 		}
 		sc := scope(b)
@@ -216,14 +231,14 @@ func (p *Printer) build(q *Query, outer [][]string) *block {
 		return b
 	case "distinct":
 		b := p.build(q.L, outer)
-		if q.Barrier || p.NoFuse || b.raw != "" || b.stage > stSelect {
+		if p.noFuse(q) || b.raw != "" || b.stage > stSelect {
 			b = p.derive(b)
 		}
 		b.distinct, b.stage = true, stDistinct
 		return b
 	case "orderby":
 		b := p.build(q.L, outer)
-		if q.Barrier || p.NoFuse || b.stage > stDistinct {
+		if p.noFuse(q) || b.stage > stDistinct || (b.distinct && !p.AllowDistinctOrdinal) {
 			b = p.derive(b)
 		}
 		byOutput := b.sel != nil || b.distinct || b.raw != "" || b.grouped
@@ -246,8 +261,11 @@ func (p *Printer) build(q *Query, outer [][]string) *block {
 		return b
 	case "limit":
 		b := p.build(q.L, outer)
-		if q.Barrier || p.NoFuse || b.stage > stOrder {
+		if p.noFuse(q) || b.stage > stOrder || (b.raw != "" && q.Off > 0 && !p.AllowSetopOffset) {
 			b = p.derive(b)
+		}
+		if b.raw != "" && q.Off > 0 {
+			p.Feats["setop_offset"] = true
 		}
 		b.limit, b.stage = fmt.Sprintf("LIMIT %d OFFSET %d", q.N, q.Off), stLimit
 		return b
@@ -379,7 +397,7 @@ func (p *Printer) expr(e *Expr, sc [][]string) string {
 		parts = append(parts, p.expr(cur, sc))
 		return "COALESCE(" + strings.Join(parts, ", ") + ")"
 	case "exists":
-		return "EXISTS (" + p.subquery(e.Q, sc) + ")"
+		return "(EXISTS (" + p.subquery(e.Q, sc) + "))"
 	case "insub":
 		return "(" + a(0) + " IN (" + p.subquery(e.Q, sc) + "))"
 	case "scalar":
